@@ -19,6 +19,20 @@ inline int val (const Triv& t) { return t.v; }
 inline bool operator== (const Triv& a, const Triv& b) { return a.v == b.v; }
 inline bool operator<  (const Triv& a, const Triv& b) { return a.v < b.v; }
 
+// same value type with user-provided copy operations: generic (non-memcpy) paths
+struct NonTriv
+{
+  int v;
+  NonTriv () : v (0) { }
+  NonTriv (const NonTriv& o) : v (o.v) { }
+  NonTriv& operator= (const NonTriv& o) { v = o.v; return *this; }
+  ~NonTriv () { v = -12345; }
+};
+inline NonTriv mk (int x, NonTriv *) { NonTriv t; t.v = x; return t; }
+inline int val (const NonTriv& t) { return t.v; }
+inline bool operator== (const NonTriv& a, const NonTriv& b) { return a.v == b.v; }
+inline bool operator<  (const NonTriv& a, const NonTriv& b) { return a.v < b.v; }
+
 inline int mk (int x, int *) { return x; }
 inline int val (int x) { return x; }
 inline TNx mk (int x, TNx *) { return TNx (x); }
@@ -245,6 +259,50 @@ int main (int argc, char **argv)
   typedef LedgerAlloc<Triv, ACfg<true, true, true, false> > AT1;
   typedef LedgerAlloc<TNx, ACfg<false, true, false, true> > AN2;
   typedef LedgerAlloc<int, ACfg<false, false, false, false, unsigned char> > AI8;
+#ifdef XSTD_TWIN
+  if (arg_flag (argc, argv, "--twin") || true)
+  {
+    // C13 twin replay: the same history on int / trivially copyable struct / non-trivial struct must give identical traces
+    G ().monitors = 1ull << 13;   // ledger canaries (bytes outside the elements' storage)
+    typedef LedgerAlloc<int, ACfg<false, true, false, false> > LI;
+    typedef LedgerAlloc<Triv, ACfg<false, true, false, false> > LT;
+    typedef LedgerAlloc<NonTriv, ACfg<false, true, false, false> > LN;
+    for (int i = 0; i < cases; ++i)
+    {
+      uint64_t hs = mix64 (seed, static_cast<uint64_t> (i));
+      for (int g = 0; g < 4; ++g)
+      {
+        char id[64]; std::snprintf (id, sizeof id, "%d.t%d", i, g);
+        bool tr = trace && ! std::strcmp (trace, id);
+        uint64_t h[3];
+        for (int t = 0; t < 3; ++t)
+        {
+          if (tr) std::printf ("TRACE %s type %d", id, t);
+          switch (g * 3 + t)
+          {
+            case 0: h[t] = Corpus<int, std::allocator<int>, 2, 5>::history (hs, len, 40, tr); break;
+            case 1: h[t] = Corpus<Triv, std::allocator<Triv>, 2, 5>::history (hs, len, 40, tr); break;
+            case 2: h[t] = Corpus<NonTriv, std::allocator<NonTriv>, 2, 5>::history (hs, len, 40, tr); break;
+            case 3: h[t] = Corpus<int, std::allocator<int>, 0, 3>::history (hs + 1, len, 40, tr); break;
+            case 4: h[t] = Corpus<Triv, std::allocator<Triv>, 0, 3>::history (hs + 1, len, 40, tr); break;
+            case 5: h[t] = Corpus<NonTriv, std::allocator<NonTriv>, 0, 3>::history (hs + 1, len, 40, tr); break;
+            case 6: h[t] = Corpus<int, LI, 4, 1>::history (hs + 2, len, 40, tr); break;
+            case 7: h[t] = Corpus<Triv, LT, 4, 1>::history (hs + 2, len, 40, tr); break;
+            case 8: h[t] = Corpus<NonTriv, LN, 4, 1>::history (hs + 2, len, 40, tr); break;
+            case 9: h[t] = Corpus<int, LI, 8, 8>::history (hs + 3, len, 60, tr); break;
+            case 10: h[t] = Corpus<Triv, LT, 8, 8>::history (hs + 3, len, 60, tr); break;
+            default: h[t] = Corpus<NonTriv, LN, 8, 8>::history (hs + 3, len, 60, tr); break;
+          }
+          if (tr) std::printf ("\n");
+        }
+        std::printf ("{\"type\":\"twin\",\"id\":\"%s\",\"int\":\"%016llx\",\"triv\":\"%016llx\",\"nontriv\":\"%016llx\"}\n", id,
+                     static_cast<unsigned long long> (h[0]), static_cast<unsigned long long> (h[1]), static_cast<unsigned long long> (h[2]));
+      }
+    }
+    std::printf ("{\"type\":\"done\",\"chunks\":1,\"deaths\":0}\n");
+    return 0;
+  }
+#else
   for (int i = 0; i < cases; ++i)
   {
     uint64_t hs = mix64 (seed, static_cast<uint64_t> (i));
@@ -278,6 +336,7 @@ int main (int argc, char **argv)
     if (tr) std::printf ("\n");
     std::printf ("{\"type\":\"digest\",\"id\":\"%s\",\"family\":\"converting\",\"h\":\"%016llx\"}\n", id, static_cast<unsigned long long> (h));
   }
+#endif
   std::printf ("{\"type\":\"done\",\"chunks\":1,\"deaths\":0}\n");
   return 0;
 }
